@@ -86,9 +86,6 @@ def ClosedNone (db : BibData) (name : Str) (S : List Str) : Prop :=
   ∀ k ∈ S, ∃ x q, k = lower x ∧ db.entries.getItem x = some q ∧ q.own name = none ∧
     ∀ y, q.fields.getItem Pybtex.xrefName = some y → (db.entries.getItem y).isSome = true → lower y ∈ S
 
-theorem getItem_lower_congr {V : Type} (d : CIDict V) {x y : Str} (h : lower x = lower y) : d.getItem x = d.getItem y := by
-  simp [CIDict.getItem, h]
-
 /-- inside such a set the walk never finds the field, however long -/
 theorem walk_closed_none {db : BibData} (hdb : DbWF db) {name : Str} {S : List Str} (hS : ClosedNone db name S) :
     ∀ (n : Nat) (x : Str) (q : Entry), lower x ∈ S → db.entries.getItem x = some q →
